@@ -7,6 +7,8 @@ from engine.tlc import MachineryError
 
 
 def klass(name):
+    if name.startswith("t:") or name.startswith("re:"):
+        return name
     for pre, k in (("i", "int"), ("b", "bool"), ("f", "float"), ("L", "list"), ("T", "tuple")):
         if name.startswith(pre) and name not in ("abc", "abd", "empty"):
             return k
@@ -37,6 +39,8 @@ def run(prop, tier, seed, ctx):
             what = "unit_test with case outcomes %s: returned %s (expected %s / %d passed)" % (c["cases"], m["observed"], m["expected"], c["passed"])
         else:
             key = "C07|%s|%s|%s|holds=%s" % (c["a"], klass(c["l"]), klass(c["r"]) if c["a"] not in ("is_none", "is_not_none", "true", "false") else "-", m["holds"])
+            if c["a"] in ("is_instance", "not_is_instance") and c["r"] in ("t:int", "t:float") and klass(c["l"]) in ("int", "float", "bool"):
+                key = "C07|is_instance|int-float-interchangeable"
             what = "assert_%s(%s, %s) with wrapping %s: %s but the relation %s (expected %s); status=%s" % (
                 c["a"], c["l"], c["r"], m["wrap"], m["observed"].get("observed"), {"T": "holds", "F": "does not hold", "U": "cannot be evaluated"}.get(m["holds"]),
                 m["expected"], m["observed"].get("status"))
